@@ -194,7 +194,7 @@ class Ghost:
             return v
         raise RaiseSig(I.instantiate(v, [], {}, node), where=I.where(node))
 
-    INPUT_APIS = ("int", "bool", "real", "choice", "bytes", "bytes_fixed", "opaque", "opaque_seq", "intset", "map", "text", "seq", "sym_list")
+    INPUT_APIS = ("lazy_dict", "int", "bool", "real", "choice", "bytes", "bytes_fixed", "opaque", "opaque_seq", "intset", "map", "text", "seq", "sym_list")
 
     def _input(self, m, a, k, n):
         """inputs are deterministic by name: re-running an abstract contract (replay of its
@@ -573,6 +573,27 @@ class Ghost:
 
         ctx.register_input(name, ex)
         return m
+
+    def vc_lazy_dict(self, args, kwargs, node):
+        """vc.lazy_dict(name, gen_value, gen_key=None, default=None, key_from_json=None): a dict
+        with arbitrary, unbounded contents; the value of a key is gen_value(vc, name_i, key)
+        the first time the key is found present, gen_key(vc, name_j) makes an arbitrary key
+        for an entry reached only by iteration"""
+        from .valenc import Val
+        from .values import LazyDictV
+        from . import lazydict
+
+        ctx = self.I.ctx
+        name = args[0]
+        gen_value = args[1]
+        gen_key = args[2] if len(args) > 2 else kwargs.get("gen_key")
+        dom = z3.Function(name + ".has", Val, z3.BoolSort())
+        m = z3.Int(name + ".size")
+        ctx.assume(m >= 0)
+        d = LazyDictV(name, dom, m, gen_value, gen_key, kwargs.get("default"))
+        I = self.I
+        ctx.register_input(name, lambda model, d=d: lazydict.model_entries(I, d, model))
+        return d
 
     def vc_copy(self, args, kwargs, node):
         """vc.copy(x): independent copy of a mutable harness value with equal contents"""
